@@ -1424,6 +1424,9 @@ func unmarshalDate(info TypeInfo, data []byte, value interface{}) error {
 			*v = time.Time{}
 			return nil
 		}
+		if len(data) < 4 {
+			return unmarshalErrorf("can not unmarshal %s: need 4 bytes, got %d", info, len(data))
+		}
 		var origin uint32 = 1 << 31
 		var current uint32 = binary.BigEndian.Uint32(data)
 		timestamp := (int64(current) - int64(origin)) * millisecondsInADay
@@ -1433,6 +1436,9 @@ func unmarshalDate(info TypeInfo, data []byte, value interface{}) error {
 		if len(data) == 0 {
 			*v = ""
 			return nil
+		}
+		if len(data) < 4 {
+			return unmarshalErrorf("can not unmarshal %s: need 4 bytes, got %d", info, len(data))
 		}
 		var origin uint32 = 1 << 31
 		var current uint32 = binary.BigEndian.Uint32(data)
@@ -1698,6 +1704,13 @@ func unmarshalList(info TypeInfo, data []byte, value interface{}) error {
 			return err
 		}
 		data = data[p:]
+		if n < 0 {
+			return unmarshalErrorf("negative list size %d", n)
+		}
+		if n > len(data)/p {
+			// every element has at least a length field
+			return unmarshalErrorf("unmarshal list: unexpected eof")
+		}
 		if k == reflect.Array {
 			if rv.Len() != n {
 				return unmarshalErrorf("unmarshal list: array with wrong size")
@@ -1818,8 +1831,12 @@ func unmarshalMap(info TypeInfo, data []byte, value interface{}) error {
 	if n < 0 {
 		return unmarshalErrorf("negative map size %d", n)
 	}
-	rv.Set(reflect.MakeMapWithSize(t, n))
 	data = data[p:]
+	if n > len(data)/(2*p) {
+		// every entry has at least two length fields
+		return unmarshalErrorf("unmarshal map: unexpected eof")
+	}
+	rv.Set(reflect.MakeMapWithSize(t, n))
 	for i := 0; i < n; i++ {
 		m, p, err := readCollectionSize(mapInfo, data)
 		if err != nil {
@@ -2114,14 +2131,17 @@ func marshalTuple(info TypeInfo, value interface{}) ([]byte, error) {
 	return nil, marshalErrorf("cannot marshal %T into %s", value, tuple)
 }
 
-func readBytes(p []byte) ([]byte, []byte) {
+func readBytes(p []byte) ([]byte, []byte, error) {
 	// TODO: really should use a framer
 	size := readInt(p)
 	p = p[4:]
 	if size < 0 {
-		return nil, p
+		return nil, p, nil
 	}
-	return p[:size], p[size:]
+	if int(size) > len(p) {
+		return nil, nil, unmarshalErrorf("unexpected eof: element of %d bytes but only %d bytes left", size, len(p))
+	}
+	return p[:size], p[size:], nil
 }
 
 // currently only support unmarshal into a list of values, this makes it possible
@@ -2139,7 +2159,11 @@ func unmarshalTuple(info TypeInfo, data []byte, value interface{}) error {
 			// each element inside data is a [bytes]
 			var p []byte
 			if len(data) >= 4 {
-				p, data = readBytes(data)
+				var err error
+				p, data, err = readBytes(data)
+				if err != nil {
+					return err
+				}
 			}
 			err := Unmarshal(elem, p, v[i])
 			if err != nil {
@@ -2168,7 +2192,11 @@ func unmarshalTuple(info TypeInfo, data []byte, value interface{}) error {
 		for i, elem := range tuple.Elems {
 			var p []byte
 			if len(data) >= 4 {
-				p, data = readBytes(data)
+				var err error
+				p, data, err = readBytes(data)
+				if err != nil {
+					return err
+				}
 			}
 
 			if err := unmarshalTupleElem(elem, p, rv.Field(i)); err != nil {
@@ -2190,7 +2218,11 @@ func unmarshalTuple(info TypeInfo, data []byte, value interface{}) error {
 		for i, elem := range tuple.Elems {
 			var p []byte
 			if len(data) >= 4 {
-				p, data = readBytes(data)
+				var err error
+				p, data, err = readBytes(data)
+				if err != nil {
+					return err
+				}
 			}
 
 			if err := unmarshalTupleElem(elem, p, rv.Index(i)); err != nil {
@@ -2350,7 +2382,11 @@ func unmarshalUDT(info TypeInfo, data []byte, value interface{}) error {
 			}
 
 			var p []byte
-			p, data = readBytes(data)
+			var err error
+			p, data, err = readBytes(data)
+			if err != nil {
+				return err
+			}
 			if err := v.UnmarshalUDT(e.Name, e.Type, p); err != nil {
 				return err
 			}
@@ -2393,7 +2429,10 @@ func unmarshalUDT(info TypeInfo, data []byte, value interface{}) error {
 			val := reflect.New(valType)
 
 			var p []byte
-			p, data = readBytes(data)
+			p, data, err = readBytes(data)
+			if err != nil {
+				return err
+			}
 
 			if err := Unmarshal(e.Type, p, val.Interface()); err != nil {
 				return err
@@ -2443,7 +2482,11 @@ func unmarshalUDT(info TypeInfo, data []byte, value interface{}) error {
 		}
 
 		var p []byte
-		p, data = readBytes(data)
+		var err error
+		p, data, err = readBytes(data)
+		if err != nil {
+			return err
+		}
 
 		f, ok := fields[e.Name]
 		if !ok {
